@@ -36,6 +36,61 @@ fn main() {
             let lines = fam::gen(&args[2], seed, &args[4]);
             std::fs::write(&args[5], lines.join("\n") + "\n").unwrap();
         }
+        "run-isolated" => {
+            // Stateless families only: the cases are run in child processes so that an abort (allocation
+            // failure, stack overflow) is observed as `<id> abort` instead of killing the run.
+            let text = std::fs::read_to_string(&args[3]).unwrap();
+            let lines: Vec<&str> = text.lines().filter(|l| !l.is_empty() && !l.starts_with('#')).collect();
+            let mut out = String::new();
+            let mut start = 0usize;
+            let exe = std::env::current_exe().unwrap();
+            while start < lines.len() {
+                let chunk = std::env::temp_dir().join(format!("mila-harness-{}-{}.cases", std::process::id(), start));
+                let chunk_out = chunk.with_extension("out");
+                std::fs::write(&chunk, lines[start..].join("\n") + "\n").unwrap();
+                let _ = std::fs::remove_file(&chunk_out);
+                let status = std::process::Command::new(&exe)
+                    .args(["run-stream", &args[2], chunk.to_str().unwrap(), chunk_out.to_str().unwrap()])
+                    .status()
+                    .unwrap();
+                let done = std::fs::read_to_string(&chunk_out).unwrap_or_default();
+                let n_done = done.lines().count();
+                out.push_str(&done);
+                if !done.is_empty() && !done.ends_with('\n') {
+                    out.push('\n');
+                }
+                let _ = std::fs::remove_file(&chunk);
+                let _ = std::fs::remove_file(&chunk_out);
+                start += n_done;
+                if status.success() && start >= lines.len() {
+                    break;
+                }
+                if start < lines.len() {
+                    // the child died while running lines[start]
+                    let id = lines[start].split(' ').next().unwrap_or("?");
+                    out.push_str(&format!("{} abort\n", id));
+                    start += 1;
+                }
+            }
+            std::fs::write(&args[4], out).unwrap();
+        }
+        "run-stream" => {
+            // like `run`, but appends and flushes each output line as soon as it is produced
+            use std::io::Write;
+            alloc::set_cap(1 << 30);
+            let text = std::fs::read_to_string(&args[3]).unwrap();
+            let mut f = std::fs::File::create(&args[4]).unwrap();
+            let mut st = fam::State::default();
+            for line in text.lines() {
+                if line.is_empty() || line.starts_with('#') {
+                    continue;
+                }
+                let r = fam::run_line(&args[2], &mut st, line);
+                f.write_all(r.as_bytes()).unwrap();
+                f.write_all(b"\n").unwrap();
+                f.flush().unwrap();
+            }
+        }
         "run" => {
             let text = std::fs::read_to_string(&args[3]).unwrap();
             let mut out = String::new();
